@@ -120,8 +120,8 @@ UNITS["C18"] = [
 UNITS["C04"] = [
     dict(kind="depcheck", name="depcheck_c04"),
     dict(kind="verus", name="c04_needs", template="specs/c04_needs.vrs",
-         under_contract=["frag_skip", "frag_full", "frag_missing", "frag_other_haves", "frag_other_seqs_haves", "frag_dedup_full"],
-         vacuity=["frag_skip", "frag_full", "frag_missing", "frag_other_haves", "frag_other_seqs_haves", "frag_dedup_full"],
+         under_contract=["frag_skip", "frag_full", "frag_missing", "frag_other_haves", "frag_other_seqs_haves", "frag_dedup_full", "frag_dedup_partial"],
+         vacuity=["frag_skip", "frag_full", "frag_missing", "frag_other_haves", "frag_other_seqs_haves", "frag_dedup_full", "frag_dedup_partial"],
          assumptions=["fragments of compute_available_needs are wrapped as functions over their free variables (self -> this, `continue` -> return Exit::Continue)",
                       "contracts of RangeInclusiveSet::overlapping, HashMap::{get,entry().or_default()}, cmp::{max,min} on &newtype (lib/*.vrs)",
                       "NOT under contract: the flat_map/collect closure chain that intersects our missing seqs with the peer's held seqs, and the max-end computation"]),
